@@ -406,6 +406,11 @@ func genC01(c *Ctx) {
 			}
 			emitKey("sparse-keys/few-bits", k)
 		}
+		// the constants written in the library's source, as private keys (a shortcut that compares a scalar with the
+		// wrong constant is wrong for that one key)
+		for _, k := range sourceScalars() {
+			emitKey("source-constant-keys", k)
+		}
 	}
 	// fixed hashers: chosen 128-byte outputs including chunks >= p
 	ones := make([]byte, 128)
